@@ -714,6 +714,11 @@ def c07(ctx, res):
     for text in (".orig x0000\nhalt\n.blkw xFFFE\n", ".orig x0000\nhalt\n.blkw xFFFD\n", ".orig x0001\nhalt\n.blkw xFFFD\n", "halt\n.blkw xCFFE\n",
                  ".orig xFFFE\nhalt\n", ".orig x0000\nhalt\n.blkw xFFFF\n", ".orig x0002\nhalt\n.blkw xFFFD\n"):
         cases.append((text, False, "largest_program"))
+    # sources of more than a mebibyte (comments and blank lines) whose only error - or whose only statements - come last
+    pad = "; " + "x" * 60 + "\n"
+    big = pad * 18000
+    for tail in ("ld r0 far\n.blkw #300\nfar .fill x1\n", "add r0 r0 #99\n", "br nowhere\n", "halt\n", ".stringz \"open\n"):
+        cases.append((big + "halt\n" + pad * 40 + tail, False, "verdict_decided_behind_the_first_mebibyte"))
     # the feature flag written in front of the subcommand (`lace -f stack check x.asm`): whatever it
     # means there, it means the same to check, compile and run
     for text in ("push r0\npop r1\nhalt\n", "call f\nhalt\nf rets\n", "add r0 r0 #1\nhalt\n", "PUSH R1\n"):
@@ -820,7 +825,7 @@ def c07(ctx, res):
             res.samples.append({"source": src[:400], "stack_flag": stack, "check": oc, "compile": om, "run_exit": run.rc})
     res.require(["tag:emit_fail", "tag:mixed", "tag:valid", "tag:top_of_memory", "tag:stack_ext_without_flag", "flag:stack", "flag:none",
                  "both_accept", "both_reject", "emit_fail_minimal_program", "tag:fuzz", "tag:empty_program", "tag:flag_before_subcommand", "tag:not_utf8", "file_name:s", "file_name:none",
-                 "after_an_earlier_failed_invocation:source_absent", "after_an_earlier_failed_invocation:source_not_text", "after_an_earlier_failed_invocation:source_is_a_directory"]
+                 "tag:verdict_decided_behind_the_first_mebibyte", "after_an_earlier_failed_invocation:source_absent", "after_an_earlier_failed_invocation:source_not_text", "after_an_earlier_failed_invocation:source_is_a_directory"]
                 + ["both_reject:" + r for r in ("undefined_label", "origin_twice", "duplicate_or_bad_label", "syntax", "directive_operand",
                                                 "lexical", "operand_range", "stack_extension_off")] + ["emit_fail_form:" + f for f in ("BR", "LD", "LDI", "LEA", "ST", "STI", "JSR", "CALL")], "L2")
     # ---- watch: every re-check equals a fresh check
@@ -895,6 +900,8 @@ def watch_history(ctx, res, cp, prop, h, length=5, stack=False, ext_sources=Fals
         # a version that draws a warning (a negative count) and then fails, followed by a clean one: what is said
         # about a version is said about that version - warnings included, no more and no fewer than a fresh check gives
         hist.append("buf .blkw #-3\nadd r0 r0 #99\n")
+        # ... saved once more as it is: the same text, the same report, in full
+        hist.append("buf .blkw #-3\nadd r0 r0 #99\n")
         hist.append("add r0 r0 #1\nhalt\n")
         hist.append("buf .blkw #-2\nhalt\n")
         res.cls("watch_version_with_a_warning")
@@ -939,8 +946,10 @@ def watch_history(ctx, res, cp, prop, h, length=5, stack=False, ext_sources=Fals
     try:
         time.sleep(1.0)
         segments = []
+        offsets = []
         for k, src in enumerate(hist):
             before = os.path.getsize(logpath)
+            offsets.append(before)
             if symlinked:
                 t = targets[(k + 1) % 2]
                 _write(t, src)
@@ -1084,6 +1093,21 @@ def watch_history(ctx, res, cp, prop, h, length=5, stack=False, ext_sources=Fals
         watch_ok = "no errors found" in lastc
         # (a file that cannot be read as text makes `watch` report that and give up: an error all the same)
         watch_err = "Error" in lastc or "×" in lastc or "Exiting..." in lastc
+        if watch_ok == watch_err and not watch_ok:
+            # neither a success line nor an error in what was captured for this step: look at everything `watch` printed
+            # between this save and the next (the session is over, nothing more will come)
+            whole = open(logpath, "rb").read()
+            part = whole[offsets[k]:offsets[k + 1] if k + 1 < len(offsets) else len(whole)].decode("utf-8", "replace")
+            later = [s2 for s2 in CLEAR.split(part) if "Re-checking" in s2]
+            if later:
+                lastc = later[-1]
+                watch_ok = "no errors found" in lastc
+                watch_err = "Error" in lastc or "\u00d7" in lastc or "Exiting..." in lastc
+            if not watch_ok and not watch_err:
+                res.violate("%s/watch-re-check-shows-no-verdict" % prop,
+                            "re-check #%d of `lace watch` shows neither success nor an error; a fresh `lace check` of the same text reports %s" % (k + 1, "success" if fresh_ok else "an error"),
+                            dict(detail, whole_output_for_this_version=part[-800:]))
+                continue
         if watch_ok == watch_err:
             res.inconclusive["watch output not understood"] = 1
             continue
@@ -2750,6 +2774,24 @@ def c18_cli(ctx, res):
             elif "stack" not in text.replace("regs.asm", ""):
                 res.violate("C18/cli/diagnostic-does-not-name-feature", "`eval %s` without the flag is refused without naming the `stack` feature%s" % (mn, " (--minimal)" if mode else ""),
                             {"run": r.brief()})
+    # ... and with the flag on they execute when given to `eval`, like in a program: PUSH/POP move a value, CALL pushes
+    # the return address and goes to the routine, RETS comes back
+    _write(os.path.join(d, "evalext.asm"), "add r0 r0 #5\nhalt\nf add r1 r1 #1\nrets\n")
+    for mode in ([], ["--minimal"]):
+        r = lace(ctx, ["debug", "evalext.asm", "-f", "stack"] + mode + ["--command", "step;eval push r0;eval pop r2;eval call f;registers;eval rets;registers;exit"], cwd=d, stdin=b"",
+                 env={"NO_COLOR": "1"})
+        res.evaluations += 1
+        res.cls("l2:extension_mnemonic_executed_through_eval")
+        text = _SGR.sub(b"", r.err).decode("utf-8", "replace")
+        regs = re.findall(r"(R[0-7]|PC)\s+0?x([0-9a-fA-F]{4})", text)
+        first = {k: v.lower() for k, v in regs[:len(regs) // 2]}
+        second = {k: v.lower() for k, v in regs[len(regs) // 2:]}
+        want1, want2 = {"R2": "0005", "R7": "fdfe", "PC": "3002"}, {"R2": "0005", "R7": "fdff", "PC": "3001"}
+        bad = {k: (first.get(k), v) for k, v in want1.items() if first.get(k) != v}
+        bad.update({k + "'": (second.get(k), v) for k, v in want2.items() if second.get(k) != v})
+        if r.rc != 0 or bad:
+            res.violate("C18/cli/flag-on-not-honoured/eval", "with `-f stack`, `eval push r0;eval pop r2;eval call f;registers;eval rets;registers` shows (got, expected) %s (exit %s): the four instructions execute when given to `eval`"
+                        % (bad, r.rc), {"run": r.brief()})
     # a plain program that prints its registers (REG) after moving R7, in both output modes
     regp = "jsr f\nreg\nhalt\nf add r1 r1 #3\nret\n"
     for mode in ([], ["--minimal"]):
@@ -2884,8 +2926,24 @@ def c09_cli(ctx, res, limit):
                     res.violate("C09/cli/stdout" if dbg.rc == plain.rc else "C09/cli/exit-status",
                                 "a program writing an escape sequence one character at a time: output or exit status differ between `lace run%s` and `lace debug%s` with the script %r (%s)"
                                 % (" --minimal" if mode else "", " --minimal" if mode else "", script, how), {"plain": plain.brief(), "debugged": dbg.brief()})
+    # a program that runs for a few million instructions before it prints and halts, under one `continue`: however long
+    # it takes, it is the program's time
+    _write(os.path.join(d, "long.asm"), "ld r2 n\nouter and r1 r1 #0\ninner add r1 r1 #-1\nbrnp inner\nadd r2 r2 #-1\nbrp outer\nlea r0 m\nputs\nhalt\nn .fill #%d\nm .stringz \"done\"\n"
+           % (18 if not ctx.thorough() else 60))
+    plain = lace(ctx, ["run", "long.asm", "--minimal"], cwd=d, stdin=b"", timeout=600)
+    for script in ("continue;quit", "step into 3;continue", "break add x3006;continue;continue"):
+        dbg = lace(ctx, ["debug", "long.asm", "--minimal", "--command", script], cwd=d, stdin=b"", timeout=600)
+        res.evaluations += 1
+        res.cls("l2:millions_of_instructions_under_one_continue")
+        if plain.rc is None or dbg.rc is None:
+            k = "a run of millions of instructions exceeded the 600 s watchdog (undecided)"
+            res.inconclusive[k] = res.inconclusive.get(k, 0) + 1
+        elif (dbg.rc, dbg.out) != (plain.rc, plain.out):
+            res.violate("C09/cli/stdout" if dbg.rc == plain.rc else "C09/cli/exit-status",
+                        "a program that executes about %d million instructions: output or exit status differ between `lace run` and `lace debug --command %r`"
+                        % ((18 if not ctx.thorough() else 60) * 131072 // 1000000, script), {"plain": plain.brief(), "debugged": dbg.brief()})
     res.require(["l2:debug_vs_run", "l2:debug_vs_run_with_program_input", "l2:program_prints_control_bytes", "l2:script_and_program_input_share_stdin", "l2:program_input_read_under_the_debugger",
-                 "l2:escape_sequence_written_across_pauses"], "L2")
+                 "l2:escape_sequence_written_across_pauses", "l2:millions_of_instructions_under_one_continue"], "L2")
 
 
 # ------------------------------------------------------------------ C20 (L2: the line editor on a real terminal)
@@ -3291,7 +3349,22 @@ def c01_cli(ctx, res, limit):
                     res.violate("C01/cli/object-bytes", "`lace compile` of %d statements at origin x%04X (last word at x%04X) does not write the reference image (exit %s, %s bytes, expected %d)"
                                 % (n, origin, end, c.rc, None if data is None else len(data), len(want)),
                                 {"source": text, "compile": c.brief(), "file_hex": None if data is None else data.hex(), "expected_hex": want.hex()})
-    res.require(["l2:compile", "l2:run_next_to_object_file_of_other_text", "l2:default_destination", "l2:compile_image_ending_at:xFFFF", "l2:compile_image_ending_at:xFFFE"], "L2")
+    # statements that have no encoding (an operand one beyond its field, in every spelling) produce no image
+    d5 = _dir(ctx, "c01_none")
+    beyond = ["and r1 r2 x10", "add r1 r2 0x10", "ADD R1 R2 X10", "add r1 r2 #16", "and r1 r2 x-11", "add r1 r2 #-17", "ldr r1 r2 x20", "str r1 r2 0X20", "ldr r1 r2 #32", "str r1 r2 x-21", "ldr r1 r2 #-33",
+              "trap x100", "trap #256", "br x100", "ld r1 #256", "lea r1 x-101", "jsr x400", "jsr #-1025", "st r1 #-257", ".fill x10000", ".fill #65536", ".fill #-32769", ".orig x10000"]
+    for k, stmt in enumerate(beyond):
+        name = "n%d.asm" % k
+        _write(os.path.join(d5, name), stmt + "\nhalt\n")
+        c = lace(ctx, ["compile", name, "n%d.lc3" % k], cwd=d5)
+        res.evaluations += 1
+        res.cls("l2:statement_without_an_encoding")
+        if c.rc == 0 or os.path.exists(os.path.join(d5, "n%d.lc3" % k)):
+            data = open(os.path.join(d5, "n%d.lc3" % k), "rb").read() if os.path.exists(os.path.join(d5, "n%d.lc3" % k)) else b""
+            res.violate("C01/cli/image-for-a-statement-without-encoding", "`%s` has an operand one beyond its field and no encoding; `lace compile` exits %s and writes x%s"
+                        % (stmt, c.rc, data.hex()), {"source": stmt, "compile": c.brief()})
+    res.require(["l2:compile", "l2:run_next_to_object_file_of_other_text", "l2:default_destination", "l2:compile_image_ending_at:xFFFF", "l2:compile_image_ending_at:xFFFE",
+                 "l2:statement_without_an_encoding"], "L2")
 
 
 # ------------------------------------------------------------------ valgrind samples (thorough)
